@@ -56,7 +56,7 @@ pub fn explore(ctx: &Ctx) {
     let zs: Vec<(f64, f64)> = if quick {
         vec![(-180.0, -12.0), (-180.0, -6.0), (-77.2086, -5.0), (0.0, 0.0), (0.0, 6.0), (39.8233, 3.0), (82.5, 5.5), (151.2, 10.0), (180.0, 12.0), (180.0, 6.0)]
     } else {
-        zones(7.5, &[-6.0, -3.0, 0.0, 3.0, 6.0])
+        zones(15.0, &[-6.0, -3.0, 0.0, 3.0, 6.0])
     };
     let mut sites_a = vec![];
     let mut i = 0;
@@ -94,10 +94,13 @@ pub fn explore(ctx: &Ctx) {
         }
     }
     ctx.alphabet("B_sites_x_methods", json!({"count": jobs_b.len(), "lats": lats_b, "zones": zs_b, "methods": 9, "policy": "each method's default (nearest good day, Fajr/Isha invalid)", "dates": dates_b.len()}));
+    let seam_b = d_seam(1600, 2399);
     par_jobs(ctx, &jobs_b, |(site, m), l| {
         let mut p = Params::new(*m);
         p.round_seconds = RoundSeconds::None;
-        for &d in &dates_b {
+        // at |lat| >= 60 every summer day triggers a nearest-good-day search: seam dates only there
+        let ds = if site.lat.abs() >= 60.0 { &seam_b } else { &dates_b };
+        for &d in ds.iter() {
             judge(ctx, l, &p, *site, d);
         }
     });
